@@ -347,7 +347,7 @@ class PointwiseNorm(PointwiseTensorFieldOperator):
             if self.exponent >= 2:
                 # Any component that is zero is not divided with
                 nz = (vf_pwnorm_fac.asarray() != 0)
-                gi[nz] /= vf_pwnorm_fac[nz]
+                gi.asarray()[nz] /= vf_pwnorm_fac.asarray()[nz]
             else:
                 # For exponents < 2 there will be a singularity if any
                 # component is zero. This results in inf or nan. See the
